@@ -41,6 +41,7 @@ def plan(tier, seed):
     q = tier == "quick"
     specs = [{"name": f"rt-{i}", "kind": "roundtrip", "n": 40 if q else 1300, "big": (not q) and i < 3} for i in range(16)]
     specs += [{"name": f"session-{i}", "kind": "session", "n": 150 if q else 4000} for i in range(4 if q else 16)]
+    specs += [{"name": f"dcsession-{i}", "kind": "dcsession", "n": 120 if q else 3000} for i in range(2 if q else 8)]
     return specs
 
 
@@ -295,15 +296,93 @@ def run_session(spec, rec: Recorder):
         loop.close()
 
 
+def run_dcsession(spec, rec: Recorder):
+    """Stateful use without a root key: ONE KeyCache that only ever holds what a DC returned serves an interleaving of
+    protect calls (at the DC's "now") and unprotect calls of blobs made earlier or by a Windows peer at nearby positions
+    (same L1 with lower / higher L2, neighbouring L1s, another L0), sync and async alternating.  Every unprotect must return
+    the plaintext whatever the cache holds: a cached seed that does not cover the blob means asking the DC, never failing."""
+    import dpapi_ng
+
+    mon.KDFS.install()
+    rng = common.rng_for(ID, spec)
+    h = common.HASHES[int(spec["name"].split("-")[1]) % 4]
+    rkid = uuid.UUID(int=rng.getrandbits(128))
+    rk = online.root_key(rng, h, "DH")
+    sids = [online.gen_sid(rng, n=k) for k in (2, 4)]
+    loop = asyncio.new_event_loop()
+    asyncio.set_event_loop(loop)
+    kw = dict(server="dc.c01.test", username="u", password="p", auth_protocol="ntlm")
+    try:
+        cache = dpapi_ng.KeyCache()
+        l0 = 361
+        now = (l0, rng.randrange(0, 32), rng.randrange(8, 32))
+        cfg = DCConfig({rkid: rk}, rkid, now=now, policy="seed", security="scripted", domain="c01.test", forest="c01.test")
+        core = DCCore(cfg)
+        made: t.List[tuple] = []
+        with fe.MemoryDC(core).installed():
+            for i in range(spec["n"]):
+                if i % 40 == 39:
+                    cache = dpapi_ng.KeyCache()  # a new process, at another time (small and large L1 / L2 indices alike)
+                    l0 = rng.choice([361, 362, 400])
+                    now = (l0, rng.choice([0, 1, 2, 5, 17, 30, 31]), rng.choice([0, 7, 20, 30, 31]))
+                    cfg.now = now
+                    made.clear()  # (blobs of the previous epoch may lie in this DC's future: it would rightly refuse their keys)
+                cfg.l2_key_absent_at_31 = rng.random() < 0.3
+                use_async = i % 2 == 1
+                sid = sids[0] if i % 5 else sids[1]
+                r = rng.random()
+                wit = {"kind": "session-dc", "shard": spec["name"], "op": i, "async": use_async, "dc_now": list(cfg.now)}
+                try:
+                    if r < 0.25:
+                        pt = b"dcs-%d" % i
+                        fn = dpapi_ng.async_ncrypt_protect_secret if use_async else dpapi_ng.ncrypt_protect_secret
+                        with mon.CLOCK.at_ns(mon.filetime_to_ns(((cfg.now[0] * 1024 + cfg.now[1] * 32 + cfg.now[2]) * B) + 5)):
+                            blob = fn(pt, sid, root_key_identifier=rkid if i % 3 else None, cache=cache, **kw)
+                            blob = loop.run_until_complete(blob) if use_async else blob
+                        rec.count("session_protects")
+                        made.append((blob, pt))
+                        if cms.reference_unprotect(blob, {rkid: rk}) != pt:
+                            rec.violation("reference-cannot-decrypt", f"dc session op {i}: the independent implementation does not recover the plaintext of a blob protected with DC-obtained keys", wit)
+                        continue
+                    if r < 0.45 and made:
+                        blob, pt = rng.choice(made)
+                        wit["blob"] = "made earlier by protect"
+                    else:
+                        # a Windows peer's blob near what the cache has seen
+                        l1 = max(0, min(cfg.now[1], cfg.now[1] - rng.choice([0, 0, 0, 1, 2, 7])))
+                        l2 = rng.randrange(32) if l1 < cfg.now[1] else rng.randrange(0, cfg.now[2] + 1)
+                        pos = (l0 if rng.random() < 0.9 else l0 - 1, l1, l2)
+                        pt = b"peer-%d" % i
+                        blob = online.ref_blob(rng, rkid, rk, sid, pos, "nonce", pt, in_envelope=rng.random() < 0.6, domain="c01.test")
+                        wit["blob_position"] = list(pos)
+                    fn = dpapi_ng.async_ncrypt_unprotect_secret if use_async else dpapi_ng.ncrypt_unprotect_secret
+                    got = fn(blob, cache=cache, **kw)
+                    got = loop.run_until_complete(got) if use_async else got
+                    rec.count("session_unprotects")
+                    rec.count("dc_session_unprotects")
+                    if got != pt:
+                        rec.violation("roundtrip-mismatch", f"dc session op {i}: unprotect returned different bytes", wit)
+                except Exception as e:
+                    rec.violation("unprotect-raised", f"dc session op {i} ({'async' if use_async else 'sync'}): {type(e).__name__}: {e}", wit)
+                rec.case(("dcsession", spec["name"], i), nontrivial=True)
+        rec.sample({"kind": "session on a cache fed only by a DC", "hash": h, "ops": spec["n"]})
+    finally:
+        loop.close()
+
+
 def run_shard(spec, rec: Recorder):
     if not common.calibrate(rec, "crypto", "gkdi", "sd", "cms", "rpc", "epm"):
         return
-    {"roundtrip": run_roundtrip, "session": run_session}[spec["kind"]](spec, rec)
+    {"roundtrip": run_roundtrip, "session": run_session, "dcsession": run_dcsession}[spec["kind"]](spec, rec)
 
 
 def replay(body, rec: Recorder):
     q = body["tier"] == "quick"
     idx = int(body["shard"].split("-")[1])
+    if body["shard"].startswith("dcsession"):
+        run_shard({"name": body["shard"], "seed": body["seed"], "tier": body["tier"], "kind": "dcsession", "n": 120 if q else 3000}, rec)
+        rec.violations[:] = [v for v in rec.violations if v["mechanism"] == body["mechanism"]][:3]
+        return
     if body["shard"].startswith("session"):
         run_shard({"name": body["shard"], "seed": body["seed"], "tier": body["tier"], "kind": "session", "n": 150 if q else 4000}, rec)
         rec.violations[:] = [v for v in rec.violations if v["mechanism"] == body["mechanism"]][:3]
